@@ -26,6 +26,10 @@ CLAIMS = {
          "Every function on the decryption path of internal/util and internal/cli/settings carries a postcondition 'nil error ==> the AES-GCM tag of the input verified under the key derived from the passphrase' and safe-mode obligations on every slice; callers are checked against callee contracts. All obligations are discharged for all inputs (no bound).",
          "Trusted: AES-GCM authenticity (cipher.AEAD.Open contract), KDFs are functions, base64 decoding is a function; frame rules of DESIGN §3.5; sequential semantics. The round-trip direction (decrypt(encrypt(x)) == x) rests on the trusted AEAD contract and is not machine-checked.",
          "§7 C27, Appendix A"),
+ "C43": ("proof",
+         "Every SQL statement the row endpoints issue (db.Exec/db.Query in ReadRows/readRowData, InsertRows/insertRowSet, UpdateRows/updateRowSet, DeleteRows and the abstract-row variants) is a guarded sink: on every path reaching it the caller is an administrator, or the DSN is unrestricted, or tables.Authorized returned true for this user, this dsn.table and the permission of this operation (read/update/delete) on this call, and the database handle belongs to the DSN the request names (also when it comes from a pending transaction id: GetDatabase ensures result.DSN == dsnName). tables.Authorized is under a functional contract: it answers true only if the permissions store returned exactly one grant row selected by filters binding dsn, table and user, and that row grants every requested operation (inductive invariant over the operation loop). database.Open is under contract for the DSN-level gate (a restricted DSN opens only for a caller whose identity or DSN grant authorizes the action); TableCreate/DeleteTable ask for the admin action.",
+         "Trusted: the resources handle (Read with Equals filters returns the rows matching the filters), dsns.DSNService.AuthDSN/ReadDSN as the DSN grant store, parsing.FullName, the SQL text builders (C14/C16 not claimed: the statement touches the table named in the URL). Sequential semantics; the permission row read is a snapshot (a concurrent revoke is outside the model).",
+         "§7 C43"),
 }
 
 NA = {
